@@ -546,13 +546,16 @@ structure GapAcc where
   rel : Rel
   htna : BitVec 32
 
+/-- what `payloadQueue.markAsAcked` does to the chunk: acked, not to be retransmitted, payload released -/
+def Chunk.markAcked (c : Chunk) : Chunk := { c with acked := true, retransmit := false, len := 0 }
+
 /-- one iteration of the gap-ack inner loop (`get`, `markAsAcked`, htna); `none` = `ErrTSNRequestNotExist` -/
 def markOne (a : GapAcc) (tsn : BitVec 32) : Option GapAcc :=
   match get a.q tsn with
   | none => none
   | some (off, c) =>
     let a1 := if !c.acked then
-        { a with q := a.q.set off { c with acked := true, retransmit := false, len := 0 },
+        { a with q := a.q.set off c.markAcked,
                  infBytes := a.infBytes - (c.len : Int), rel := addRel a.rel c.si (c.len : Int) }
       else a
     some { a1 with htna := if sna32LT a1.htna tsn then tsn else a1.htna }
